@@ -10,13 +10,13 @@
 enum {
 	OP_LOAD, OP_LOADMEM, OP_START, OP_FRAMES, OP_SETPLAYER, OP_INJECT, OP_SETPOS, OP_NEXT, OP_PREV,
 	OP_SEEK, OP_SETROW, OP_MUTE, OP_CHVOL, OP_STOP, OP_RESTART, OP_END, OP_RELEASE, OP_SCAN,
-	OP_TEMPO, OP_PLAYBUF, OP_INSPATH, OP_SMIXPLAY, OP_SETRNG, OP_GETINFO, OP_NKINDS
+	OP_TEMPO, OP_PLAYBUF, OP_INSPATH, OP_SMIXPLAY, OP_SETRNG, OP_GETINFO, OP_FMTLIST, OP_TESTMOD, OP_NKINDS
 };
 
 static const char *const c06_opname[OP_NKINDS] = {
 	"load", "loadmem", "start", "frames", "setplayer", "inject", "setpos", "next", "prev",
 	"seek", "setrow", "mute", "chvol", "stop", "restart", "end", "release", "scan",
-	"tempo", "playbuf", "inspath", "smixplay", "setrng", "getinfo"
+	"tempo", "playbuf", "inspath", "smixplay", "setrng", "getinfo", "fmtlist", "testmod"
 };
 
 struct c06_op {
@@ -151,7 +151,7 @@ static void c06_gen_control(struct c06_script *s, int nops)
 
 static const char *const c06_inspaths[] = { NULL, "/nonexistent/c06", "/tmp" };
 
-static unsigned char c06_pbuf[8192];
+static __thread unsigned char c06_pbuf[8192];
 
 /* apply one op; everything observable goes into `o` */
 static void c06_apply(xmp_context c, const struct c06_op *op, struct c06_mods *mods, struct c06_obs *o)
@@ -195,6 +195,9 @@ static void c06_apply(xmp_context c, const struct c06_op *op, struct c06_mods *m
 		struct xmp_event e;
 		memset(&e, 0, sizeof(e));
 		e.note = op->b; e.ins = op->c; e.vol = op->d;
+		/* instruments of the module only (smix slots are never loaded here) */
+		if (e.ins > ctx->m.mod.ins)
+			e.ins = ctx->m.mod.ins;
 		if (ctx->state >= XMP_STATE_PLAYING && op->a < ctx->m.mod.chn + ctx->smix.chn && op->a < XMP_MAX_CHANNELS)
 			xmp_inject_event(c, op->a, &e);
 		break; }
@@ -230,10 +233,23 @@ static void c06_apply(xmp_context c, const struct c06_op *op, struct c06_mods *m
 		break;
 	case OP_SETRNG: libxmp_set_random(&ctx->rng, (unsigned)op->a); break;
 	case OP_GETINFO:
-		if (ctx->state >= XMP_STATE_PLAYING)
+		/* legal from state LOADED on */
+		if (ctx->state >= XMP_STATE_LOADED)
 			c06_obs_frame(c, o);
 		c06_obs_int(o, xmp_get_player(c, XMP_PLAYER_STATE));
 		break;
+	case OP_FMTLIST: {
+		const char *const *l = xmp_get_format_list();
+		for (i = 0; l[i] != NULL; i++)
+			o->h = c06_str(o->h, l[i]);
+		c06_obs_int(o, i);
+		break; }
+	case OP_TESTMOD: {
+		struct xmp_test_info ti;
+		memset(&ti, 0, sizeof(ti));
+		c06_obs_int(o, xmp_test_module(mods->path[op->a], &ti));
+		o->h = fnv1a(o->h, &ti, sizeof(ti));
+		break; }
 	}
 }
 
